@@ -87,6 +87,11 @@ ENTRY = dict(
             "cuts only, max_gamma=inf: OverflowError instead of the ValueError raised for every finite limit. The model's Q has no "
             "infinity; the harness records the behaviour in the histogram observation.max_gamma_inf and neither compares nor "
             "judges it (c07_export_never_crashes speaks about finite limits only)",
+            "harness (tested, not proved): families_stream_judge_ok - several gate cuts of one parametrised family (rzz/rxx/ryy/rzx/crx/cry/crz/cp) "
+            "with different angles; the judge checks that every cut gate in the returned circuit carries the QPD basis of the INPUT "
+            "gate at its position and that the reported overhead is the product over the bases actually placed; a fixed corpus of "
+            "repeated-pair circuits (ApplyGate inside one subcircuit) is in the targeted stream; cases the oracle rejects are written "
+            "to cases_-flagged.json so that the search step of run.py reports them as judged inputs",
             "harness contracts: judge_accepts_clean_case (the property-level oracle is run on every generated case and must accept "
             "it), wide_stream_judge_ok (judge-only stream without model comparison: all registered gate families with random "
             "angles, 9-10 qubits, up to 25 two-qubit gates, several registers, global phase, labels, searches and gammas beyond "
